@@ -133,8 +133,8 @@ func (header PacketHeader) Read(bs []byte) (int64, error) {
 func (header *PacketHeader) ReadFrom(r io.Reader) (int64, error) {
 	// TODO lots of allocations, needs to be reduced
 	bs := make([]byte, PacketHeaderSize)
-	n, err := r.Read(bs)
-	if err != nil || n != PacketHeaderSize {
+	n, err := io.ReadFull(r, bs)
+	if err != nil {
 		if n == 0 && errors.Is(err, io.EOF) {
 			return 0, ErrEOFAfterZeroRead
 		}
